@@ -162,11 +162,12 @@ def witnessTPL : Cluster :=
                 (16600, oneTableDb (strBytes "g") [[liveRow [i4 2, some (.short (strBytes "template data"))]]])] }
 
 /-- 100 × 'a' as PostgreSQL's pglz stores it: va_tcinfo = 100, control byte 0x02, 'a', one match (offset 1, length 99) -/
-def hundredA : Spec.Toast.Content := .pglz [.lit 97, .mat 1 99]
+def hundredA : Spec.Comp := .pglz [.lit 97, .mat 1 99]
 
-/-- A02 (inline-compressed): `t (id int4, body text)` with one row (7, 100 × 'a' compressed in line) -/
+/-- former A02 half (inline-compressed, repaired by fixes/rows/09): `t (id int4, body text)` with one row
+(7, 100 × 'a' compressed in line) — must be dumped as the 100 × 'a' -/
 def witnessA02c : Cluster :=
-  let d := Spec.Datum.compressed hundredA.stored
+  let d := Spec.Datum.compressed hundredA
   { pgVersion := 14, dbs := [[tplRow, ⟨{ oid := 5, name := strBytes "postgres" }, 0x0900⟩]],
     content := [(5, { oneTableDb (strBytes "t") [[liveRow [i4 7, some d]]] with detoast := [(d, hundredA.original)] })] }
 
@@ -260,7 +261,7 @@ def fixedClusters : List (Cluster × List Options) :=
         ⟨{ relid := 16384, name := strBytes "........pg.dropped.2........", typid := 0, len := 64, num := 2, align := 1, dropped := true }, 0x0900⟩,
         mkAttr 16384 3 "n" 23 4 4]
        [liveRow [some (.fixed [1]), some (.fixed (strBytes "old" ++ zeros 61)), i4 42]], [{}]),
-    -- 4..8: witnesses of the open findings C01-TPL, A02 (inline-compressed; out of line), C01-SEG, C01-TBLSPC
+    -- 4..8: witnesses of the open findings C01-TPL, A02 (5: the repaired inline-compressed half; 6: out of line), C01-SEG, C01-TBLSPC
     (witnessTPL, [{}, { dbFilter := strBytes "template_foo" }]),
     (witnessA02c, [{}, { listOnly := true }]),
     (witnessA02e, [{}]),
@@ -346,7 +347,7 @@ def anySelectedDb (c : Cluster) (combos : List Options) (perDb : Bool) (p : Opti
 
 /-- C01-TPL: some live database is a template by name but not by datistemplate, or the other way round -/
 def inTPL (c : Cluster) : Bool := !decide (Spec.TemplatesByName c)
-/-- A02: some dumped row holds an inline-compressed or out-of-line value -/
+/-- A02: some dumped row holds an out-of-line value -/
 def inA02 (c : Cluster) (combos : List Options) (perDb : Bool) : Bool := anySelectedDb c combos perDb fun o d => !decide (Spec.A02Free d o)
 /-- C01-SEG: some heap has more pages than a segment holds -/
 def inSEG (c : Cluster) : Bool := c.segPages != 0 && c.content.any fun (_, d) => d.heaps.any fun h => h.2.length > c.segPages
